@@ -21,12 +21,12 @@ FUNCTIONS = ['bfg9000.builtins.install.installify', 'InstallOutputs.add', 'Insta
              'BasePath.realize (DestDir)', 'Makefile._write_variable', 'Writer.write_shell',
              'ninja.writer.command_build']
 OUTSIDE = ['effects of doppel/patchelf on disk', 'header directories installed by include pattern',
-           'post_install rpath rewriting', 'mopack deploy', 'symbolic file names in the recipe '
+           'what the post-install commands do (that every installed file gets its post-install step is checked)', 'mopack deploy', 'symbolic file names in the recipe '
            'obligations', 'prefix and DESTDIR symbolic at the same time']
 STUBS = ['Environment built once at import with the real tool detection (doppel from /venv/bin, rm)']
 ASSUMPTIONS = ['rmake/rsh validated in C01; rninja trusted']
 KINDS = ['executable (build tree, sub dir)', 'shared library', 'header (source tree)', 'man page',
-         'static library']
+         'static library', 'generated man page in a build subdirectory']
 
 
 def bounds(tier):
@@ -40,7 +40,7 @@ def bounds(tier):
 def obligations(tier, kf):
     q = tier == 'quick'
     obs = []
-    for kind in range(5):
+    for kind in range(6):
         for n in range(1, (2 if q else 3) + 1):
             obs.append(Ob('i_installify', dict(kf, N=n, M=1 if q else 2, kind=kind), 900,
                           desc='installify %s |name|==%d' % (KINDS[kind], n)))
